@@ -33,6 +33,9 @@ let run line =
       let src = { Model.xs_local = (Sx.atom loc = "1"); xs_id = z sid } in
       let a = attrs_of at in
       "ok " ^ show (Model.export_attrs g q src rep a) ^ " " ^ show a
+  | [Sx.A "own"; own; limit; confed; ce; p] ->
+      let segs = List.map (fun sg -> match Sx.list sg with t :: l -> (z t, List.map z l) | [] -> failwith "seg") (Sx.list p) in
+      if Model.has_own_as_loop (z own) (z limit) segs (z confed) (Sx.atom ce = "1") then "ok 1" else "ok 0"
   | _ -> "err unknown-op"
 let () =
   try
